@@ -70,7 +70,7 @@ def ensure_driver():
         raise RuntimeError("cannot build the fact driver")
 
 
-def extract_facts(config="default", repo=None, cache=None, force=False):
+def extract_facts(config="default", repo=None, cache=None, force=False, target=None):
     """Returns the path of a fact file that describes the *current* tree of `repo`."""
     repo = repo or REPO
     cache = cache or CACHE
@@ -84,7 +84,7 @@ def extract_facts(config="default", repo=None, cache=None, force=False):
         if not force and os.path.exists(facts) and os.path.exists(keyf) and open(keyf).read().strip() == key:
             return facts
         ensure_driver()
-        target = os.path.join(cache, "target-" + config)
+        target = target or os.path.join(cache, "target-" + config)
         # cargo's freshness cache would skip the wrapper: drop the fingerprints of scnr.
         fp = os.path.join(target, "debug", ".fingerprint")
         if os.path.isdir(fp):
@@ -143,7 +143,9 @@ class Ctx:
 
     def ob(self, rule, key, ok, detail="", loc=""):
         """Record one obligation.  `key` identifies the instance without line numbers."""
-        self.obs.append({"rule": rule, "key": key, "ok": bool(ok), "detail": detail, "loc": loc})
+        rec = {"rule": rule, "key": key, "ok": bool(ok), "detail": detail, "loc": loc}
+        if rec not in self.obs:
+            self.obs.append(rec)
         return bool(ok)
 
     def missing(self, rule, what):
@@ -171,6 +173,32 @@ class Ctx:
     def trust(self, s):
         if s not in self.trusted:
             self.trusted.append(s)
+
+
+_FACTS_CACHE = {}
+
+
+def run_rules(prop, tier, repo=None, cache=None, target=None):
+    """Extract (or reuse) the facts of `repo` and run the rule module of one property.
+    Returns (ctx, module) without printing or writing evidence."""
+    import importlib
+    from . import mirlib
+    try:
+        mod = importlib.import_module("rules.p" + prop)
+    except ModuleNotFoundError:
+        return None, None
+    facts_path = extract_facts("default", repo=repo, cache=cache, target=target)
+    k = (facts_path, os.path.getmtime(facts_path))
+    if k not in _FACTS_CACHE:
+        _FACTS_CACHE.clear()
+        _FACTS_CACHE[k] = mirlib.Facts(facts_path)
+    facts = _FACTS_CACHE[k]
+    ctx = Ctx(prop, tier, facts, repo=repo)
+    try:
+        mod.check(ctx)
+    except mirlib.AnchorMissing as e:
+        ctx.missing(prop + ".anchor", str(e))
+    return ctx, mod
 
 
 def load_known():
